@@ -125,6 +125,16 @@ class Vals:
         self.FALSE = self.values["FALSE"]
         self.NULL = self.values["NULL"]
         self._register_vint()
+        self._register_any()
+
+    def _register_any(self):
+        """symbolic lists whose elements are arbitrary values the function under contract must not look into"""
+        def wrap(it_, z):
+            return self.opaque(it_, "anyelem")
+
+        def unwrap(it_, v):
+            return z3.Int(it_.fresh("anyid"))
+        self.w.elem_kinds["any"] = (wrap, unwrap)
 
     def _register_vint(self):
         VI = self.values["ValueInt"]
@@ -175,7 +185,8 @@ class Vals:
         return self._mk("ValueDate", {"value": dt}, name)
 
     def pattern(self, it, name="p"):
-        return self._mk("ValuePattern", {"value": SStr(z3.String(name)), "pattern": SElem(z3.Int(name + ".re"), "re")}, name)
+        s = SStr(z3.String(name))
+        return self._mk("ValuePattern", {"value": s, "pattern": Obj(self.w.builtin_classes["Pattern"], {"pattern": s})}, name)
 
     def list_sym(self, it, name="l", kind="elem"):
         sort = {"int": z3.IntSort(), "str": z3.StringSort()}.get(kind, z3.IntSort())
@@ -395,6 +406,7 @@ class StubFuncs:
         self.w = world
         base = world.import_module("ckl.values").ns["ValueFunc"]
         self.cls = PyClass("StubFunc", None, [base])
+        self.cls.total_ordering = True
         self.cls.methods["execute"] = Builtin("StubFunc.execute", self._execute)
         self.cls.methods["getArgNames"] = Builtin("StubFunc.getArgNames", lambda it, a, k, n: PList(list(a[0].fields["argnames"])))
 
